@@ -80,10 +80,34 @@ def cases(rng, tier):
     return out
 
 
+FAULTY_FORMATTERS = {
+    # whatever a failing formatter printed must not replace the module: SOURCE stays the input
+    "status1_other_program": "#!/bin/sh\ncat >/dev/null\nprintf 'pub const SOURCE: &str = \"not the shader\";\\npub fn create_shader_module() {}\\n'\nexit 1\n",
+    "killed_after_partial_output": "#!/bin/sh\nhead -c 400\ncat >/dev/null\nkill -9 $$\n",
+}
+
+
 def run_cases(plain, cases_, workdir, tag):
     emb = [p for p in plain if p["include"] is None]
     res_e, _ = run_batch(emb, workdir, tag + "_emb", real=False, shim=True)
     by_id = {r["id"]: r for r in res_e}
+    # formatter on, formatter failing: two embedded cases are generated again under each failing formatter
+    if "search" not in tag:
+        import os, stat
+        picked = [p for p in emb if by_id[p["id"]].get("result") == "ok"][:2]
+        for name, script in FAULTY_FORMATTERS.items():
+            d = os.path.join(workdir, "fmt_" + name)
+            os.makedirs(d, exist_ok=True)
+            fp = os.path.join(d, "rustfmt")
+            open(fp, "w").write(script)
+            os.chmod(fp, os.stat(fp).st_mode | stat.S_IXUSR | stat.S_IXGRP | stat.S_IXOTH)
+            sub = [dict(p, opts=dict(p["opts"], rustfmt=True)) for p in picked]
+            fres, _ = run_batch(sub, workdir, tag + "_" + name, real=False, shim=True, env={"PATH": d + ":" + os.environ.get("PATH", "")})
+            for p, fr in zip(picked, fres):
+                o = fr.get("obs") or {}
+                if fr.get("result") != "ok" or o.get("source_matches") is not True:
+                    by_id[p["id"]]["fault_failure"] = "with the formatter fault `%s` (rustfmt on): result %s, SOURCE == input: %s (%s)" % (
+                        name, fr.get("result"), o.get("source_matches"), str(o.get("why"))[:200])
     inc = [p for p in plain if p["include"] is not None]
     for r in run_driver(inc, workdir, tag + "_inc"):
         by_id[r["id"]] = r
@@ -96,6 +120,9 @@ def run_cases(plain, cases_, workdir, tag):
 
 
 def b_holds(c, r):
+    if r.get("fault_failure"):
+        c["note"] = r["fault_failure"]
+        return False
     if r.get("result") != "ok":
         return True
     if c.get("include") is not None and "source_include_arg" in r:
